@@ -38,21 +38,26 @@ META = dict(
          "decided with bucket resolution (an outcome is in the trailing window while its 250 ms bucket, aligned to the "
          "breaker's creation, is among the last 40), so 'trailing 10 s' means 9.75-10 s depending on phase. 'Cut off "
          "with probability approaching 1' is decided as: the probability handed to the coin equals "
-         "(total-5-1.5*successes)/(total+1); the coin itself (math/rand) is not sampled. Concurrency: parallel bursts "
-         "from 8 goroutines with the coin at 'never reject' (calls commute; totals checked by the final probe, also "
-         "under -race in the thorough tier); interleavings inside accept()/mark with an adversarial coin are not "
-         "enumerated. A promise that is neither accepted nor rejected, scan errors of sqlx and the MySQL duplicate-"
+         "(total-5-1.5*successes)/(total+1); the coin itself (math/rand) is not sampled. Concurrency: (a) parallel bursts "
+         "from 8 goroutines with the coin at 'never reject' (calls commute; totals checked by the final probe; under "
+         "-race in the thorough tier), (b) code->spec trace validation with the race detector on: 2-4 goroutines call "
+         "one breaker with a seeded coin, the inv/coin/req/fb/ret events are validated by TLC against "
+         "spec/BreakerTrace.tla, which places the unlogged window read and outcome mark of every call; the schedules "
+         "are those the Go scheduler produced, not all. The ring mechanism of the rolling window (offset/lastTime) is "
+         "not modelled here (RollingWindowImpl belongs to C09). "
+         "A promise that is neither accepted nor rejected, scan errors of sqlx and the MySQL duplicate-"
          "entry exemption are outside the statement and not generated. Bounds: <= 4-5 macro-steps exhaustively, "
-         "bursts of 1..20 calls, 2 names; simulations up to 14 macro-steps.",
+         "bursts of 1..20 calls, 2 names; simulations up to 14 macro-steps (250 / 1050 behaviours).",
     technique="TLA+ spec (Breaker) model-checked with TLC + TLC-generated behaviours replayed on the real breaker and "
-              "its integrations (virtual clock, forced coin)",
+              "its integrations (virtual clock, forced coin) + TLC trace validation of concurrent histories (BreakerTrace)",
     design="4/C01")
 
 FINISH = dict(rule="behaviours = complete TLC enumeration (BFS over the history variable) of macro-steps "
                    "[burst of n calls | clock advance | NoBreakerFor] up to MaxSteps, each closed by a probe that reveals "
                    "(successes,total); plus seeded TLC simulation of longer behaviours; plus one behaviour per "
                    "(integration, outcome) of the benign table; every call of every behaviour is compared with the "
-                   "specification's prediction")
+                   "specification's prediction; traces = concurrent histories (one fresh breaker, 2-4 goroutines x 1-3 calls "
+                   "between sequential preload and probe calls) validated event by event against BreakerTrace.tla")
 
 REAL = dict(Size=40, Q=4, K2=3, Prot=5, Kinds="CoreKinds")
 
@@ -179,16 +184,16 @@ def run(ctx):
         plans = [("gA", dict(maxsteps=4, ns="{1,6,20}", ds="{1,3,157,159,160}")),
                  ("gB", dict(names='{"a","p"}', maxsteps=3, ns="{2,7}", ds="{3,160}", parns="{8}", dis=True))]
         sims = [("sA", dict(names='{"a","p"}', maxsteps=10, ns="{1,2,5,6,7,13,20}", ds="{1,2,3,4,39,80,156,157,158,159,160,161,400}",
-                            parns="{8}", dis=True, advadv=True, rots="{0,3,6}"), 400, 12)]
+                            parns="{8}", dis=True, advadv=True, rots="{0,3,6}"), 250, 12)]
     else:
         plans = [("gA", dict(maxsteps=4, ns="{1,5,6,7,20}", ds="{1,3,4,156,157,159,160}")),
                  ("gA5", dict(maxsteps=5, ns="{6,13}", ds="{3,157,160}")),
                  ("gB", dict(names='{"a","p"}', maxsteps=3, ns="{1,7}", ds="{3,159,160}", parns="{8}", dis=True, rots="{0,4}")),
                  ("gK", dict(maxsteps=2, ns="{1,9,20}", ds="{160}", rots="0..8"))]
         sims = [("sA", dict(names='{"a","p"}', maxsteps=14, ns="{1,2,5,6,7,13,20}", ds="{1,2,3,4,39,80,156,157,158,159,160,161,400}",
-                            parns="{8,40}", dis=True, advadv=True, rots="{0,3,6}"), 2500, 16),
-                ("sB", dict(names='{"a","b","p"}', reg='{"a","b"}', maxsteps=10, ns="{1,6,20,60}", ds="{1,3,120,157,159,160}",
-                            parns="{16}", dis=True, advadv=True, rots="{0,4}"), 1000, 12)]
+                            parns="{8,40}", dis=True, advadv=True, rots="{0,3,6}"), 800, 16),
+                ("sB", dict(names='{"a","b","p"}', reg='{"a","b"}', maxsteps=10, ns="{1,6,20,40}", ds="{1,3,120,157,159,160}",
+                            parns="{16}", dis=True, advadv=True, rots="{0,4}"), 250, 12)]
     for name, kw in plans:
         cases = gen(ctx, name, **kw)
         ctx.samples += core.sample_of(cases, 1)
@@ -200,12 +205,12 @@ def run(ctx):
 
     # ---------------------------------------------------------------- concurrency: code -> spec trace validation
     # (several goroutines on one breaker, seeded coin; TLC places the window reads and the outcome marks)
+    pkg, _, _, runre = DRIVERS["core"]
+    rb = ctx.go_build(pkg, overlay("core"), race=True, name="c01core-race")
     if ctx.quick:
         for i, gmp in enumerate((4, 16)):
-            record_and_validate(ctx, bins["core"], "g%d" % gmp, 120, gmp, i)
+            record_and_validate(ctx, rb, "g%d" % gmp, 120, gmp, i)
     else:
-        pkg, _, _, runre = DRIVERS["core"]
-        rb = ctx.go_build(pkg, overlay("core"), race=True, name="c01core-race")
         for i, gmp in enumerate((1, 2, 4, 8, 16)):
             record_and_validate(ctx, rb, "g%d" % gmp, 400, gmp, i)
         # race detector on the parallel bursts of the replay driver
